@@ -76,6 +76,7 @@ def _metrics(case, k=1.0, s=1.0):
 def impl(case):
     from gemdat.metrics import TrajectoryMetricsStd
     base, traj = _metrics(case)
+    guard = synth.InputGuard(trajectory=traj)
     out = {'base': base, 'cell': _metrics(case, k=case['k'])[0], 'time': _metrics(case, s=case['s'])[0]}
     parts = traj.split(2, equal_parts=True)
     st = TrajectoryMetricsStd(parts)
@@ -87,6 +88,7 @@ def impl(case):
                   'd_parts': [float(x.tracer_diffusivity(dimensions=case['dim'])) for x in pm],
                   'v_parts': [float(x.vibration_amplitude()) for x in pm],
                   'c_parts': [float(x.tracer_conductivity(z_ion=case['z'], dimensions=case['dim'])) for x in pm]}
+    out['inputs_changed'] = guard.changed()
     return out
 
 
@@ -97,7 +99,7 @@ def _close(a, b, rel=1e-9):
 def oracle(case, out):
     if 'base' not in out:
         return [('c14/harness-error', f"{out.get('error')}: {out.get('msg')} {out.get('tb', '')[-400:]}")]
-    fs = []
+    fs = synth.inputs_clause(out, 'TrajectoryMetrics / TrajectoryMetricsStd')
     b, c, t = out['base'], out['cell'], out['time']
     k, s = case['k'], case['s']
     # formulas on the implementation's own intermediates
